@@ -28,7 +28,7 @@ Inductive pkind := PScope | PFunction | PIf | PHandler | POther.   (* the direct
 
 Record info := mkInfo {
   ikind : okind; iline : nat; iend : nat; iruntime : bool;
-  ilabels : list string; idoc : option nat;      (* docstring identified by the line of its string statement *)
+  ilabels : list string; idoc : option (nat * nat);   (* docstring: line span of the string constant *)
   itarget : string }.                            (* alias target path, "" otherwise *)
 
 Inductive obj := Obj (i : info) (ms : list (string * obj)) (imps : list (string * string)) (exps : option (list string)).
@@ -160,7 +160,7 @@ Definition def_is_overload (ds : list deco) : bool := existsb is_overload_deco d
 
 Definition def_first_line (ln dln : nat) (ds : list deco) : nat := match ds with [] => ln | _ => dln end.
 
-Definition op_def (g : bool) (ln dln eln : nat) (name : string) (is_async : bool) (ds : list deco) (doc : option nat)
+Definition op_def (g : bool) (ln dln eln : nat) (name : string) (is_async : bool) (ds : list deco) (doc : option (nat * nat))
            (f : frame) : frame * option string :=
   let labels := def_labels is_async ds in
   if def_is_property is_async ds then
@@ -175,6 +175,9 @@ Definition op_def (g : bool) (ln dln eln : nat) (name : string) (is_async : bool
     | Some fn => (set_members f (add_label name (if String.eqb fn "setter" then "writable" else "deletable") (fmembers f)), None)
     | None => (set_members f (assign name fo (fmembers f)), None)
     end.
+(* the function object becomes (or stays) the member bound to its name *)
+Definition def_installed (ms : list (string * obj)) (name : string) (ds : list deco) : bool :=
+  negb (def_is_overload ds) && match base_property ms name ds with None => true | Some _ => false end.
 Definition def_event (name : string) (is_async : bool) (ds : list deco) (ln : nat) (f : frame) : event :=
   EvInst (if def_is_property is_async ds then KAttr else KFun) name ln (fpath f)
          (match fkind f with InInit => true | _ => false end).
@@ -199,7 +202,7 @@ Definition attr_labels (k : skind) (has_value classvar : bool) : list string :=
 (* the loop `for name in names:` of handle_attribute on the receiving frame [f]; what is forwarded from an earlier
    definition (labels, docstring) concerns that name only *)
 Fixpoint attr_loop (cond : bool) (g : bool) (ln eln : nat) (all_items : list string) (pfun : bool)
-         (names : list string) (labels : list string) (doc : option nat) (f : frame) : frame * list event :=
+         (names : list string) (labels : list string) (doc : option (nat * nat)) (f : frame) : frame * list event :=
   match names with
   | [] => (f, [])
   | n :: r =>
@@ -229,7 +232,7 @@ Definition is_level (pk : pkind) : bool := match pk with PScope => true | _ => f
 
 (* handle_attribute with [own] = Visitor.current and [up] = its parent; returns both *)
 Definition op_attr (pk : pkind) (g : bool) (ln eln : nat) (ts : list target) (has_value classvar : bool)
-           (all_items : list string) (nd : option nat) (own up : frame) : frame * frame * list event :=
+           (all_items : list string) (nd : option (nat * nat)) (own up : frame) : frame * frame * list event :=
   match fkind own with
   | InInit =>
       match names_init ts with
@@ -286,11 +289,11 @@ Definition op_augall (items : list string) (f : frame) : frame :=
   | _, _ => f
   end.
 
-Definition head_doc (body : list stmt) : option nat := match body with SDoc ln _ :: _ => Some ln | _ => None end.
+Definition head_doc (body : list stmt) : option (nat * nat) := match body with SDoc ln eln :: _ => Some (ln, eln) | _ => None end.
 (* the attribute docstring: the next statement of the same block when it is a string expression statement
    ([follow] is what comes after the block: always None, a following else/finally block does not count) *)
-Definition next_doc (rest : list stmt) (follow : option nat) : option nat :=
-  match rest with [] => follow | SDoc ln _ :: _ => Some ln | _ :: _ => None end.
+Definition next_doc (rest : list stmt) (follow : option (nat * nat)) : option (nat * nat) :=
+  match rest with [] => follow | SDoc ln eln :: _ => Some (ln, eln) | _ :: _ => None end.
 
 Definition cls_info (g : bool) (ln dln eln : nat) (ds : list deco) (body : list stmt) : info :=
   mkInfo KCls (def_first_line ln dln ds) eln (negb g) (decorators_to_labels ds) (head_doc body) "".
@@ -332,15 +335,33 @@ Definition pop_class (name : string) (st : vstate) : vstate :=
       end
   | _ => py_raise (Some "model-stack") st
   end.
-Definition pop_discard (st : vstate) : vstate :=
-  match stack st with _ :: r => set_stack st r | [] => py_raise (Some "model-stack") st end.
+(* self.current = self.current.parent after the body of a class's __init__: the function object keeps what was bound
+   in its body (definitions, classes, imports) as ITS members -- provided it was installed as the class member (not an
+   overload, not attached as a setter/deleter) and is still that member (an unconditional `self.__init__ = ...` in its
+   own body replaces it by an attribute; the detached function object is then unreachable) *)
+Definition close_fun (inst : bool) (name : string) (c p : frame) : frame :=
+  if inst then
+    match lookup name (fmembers p) with
+    | Some (Obj i _ _ _) =>
+        match ikind i with
+        | KFun => set_members p (assign name (Obj i (fmembers c) (fimports c) (fexports c)) (fmembers p))
+        | _ => p
+        end
+    | None => p
+    end
+  else p.
+Definition pop_fun (inst : bool) (name : string) (st : vstate) : vstate :=
+  match stack st with
+  | c :: p :: r => set_stack st (close_fun inst name c p :: r)
+  | _ => py_raise (Some "model-stack") st
+  end.
 
 Definition top_frame (st : vstate) : frame :=
   match stack st with f :: _ => f | [] => empty_frame InModule "" "" end.
 
-Fixpoint visit_stmt (pk : pkind) (nd : option nat) (s : stmt) (st : vstate) {struct s} : vstate :=
+Fixpoint visit_stmt (pk : pkind) (nd : option (nat * nat)) (s : stmt) (st : vstate) {struct s} : vstate :=
   let visit_list :=
-    fix vl (pk : pkind) (reset : option bool) (follow : option nat) (l : list stmt) (st : vstate) {struct l} : vstate :=
+    fix vl (pk : pkind) (reset : option bool) (follow : option (nat * nat)) (l : list stmt) (st : vstate) {struct l} : vstate :=
       match l with
       | [] => st
       | x :: r =>
@@ -358,7 +379,7 @@ Fixpoint visit_stmt (pk : pkind) (nd : option nat) (s : stmt) (st : vstate) {str
       let st4 := emit [ev] st3 in
       if desc then
         let st5 := push (empty_frame InInit name (child_path cur name)) st4 in
-        pop_discard (visit_list PFunction None None body st5)
+        pop_fun (def_installed (fmembers cur) name ds) name (visit_list PFunction None None body st5)
       else st4
   | SCls ln dln eln name ds body =>
       let st1 := emit [EvNode "class" ln] st in
@@ -388,7 +409,7 @@ Fixpoint visit_stmt (pk : pkind) (nd : option nat) (s : stmt) (st : vstate) {str
   | SOther => st
   end.
 
-Fixpoint visit_list (pk : pkind) (reset : option bool) (follow : option nat) (l : list stmt) (st : vstate) {struct l} : vstate :=
+Fixpoint visit_list (pk : pkind) (reset : option bool) (follow : option (nat * nat)) (l : list stmt) (st : vstate) {struct l} : vstate :=
   match l with
   | [] => st
   | x :: r =>
@@ -408,7 +429,7 @@ Inductive result (A : Type) := Ok (a : A) | Err (e : string).
 Arguments Ok {A} a. Arguments Err {A} e.
 
 Record module_result := mkRes {
-  r_doc : option nat; r_members : list (string * obj); r_imports : list (string * string);
+  r_doc : option (nat * nat); r_members : list (string * obj); r_imports : list (string * string);
   r_exports : option (list string); r_events : list event }.
 
 Definition run_visit (mname : string) (body : list stmt) : result module_result :=
@@ -428,9 +449,9 @@ Definition run_visit (mname : string) (body : list stmt) : result module_result 
 Record lres := mkL { l_own : frame; l_up : frame; l_events : list event; l_err : option string }.
 Definition first_err (a b : option string) : option string := match a with Some x => Some x | None => b end.
 
-Fixpoint sem_stmt (g : bool) (pk : pkind) (nd : option nat) (s : stmt) (own up : frame) {struct s} : lres :=
+Fixpoint sem_stmt (g : bool) (pk : pkind) (nd : option (nat * nat)) (s : stmt) (own up : frame) {struct s} : lres :=
   let sem_list :=
-    fix sl (g : bool) (pk : pkind) (follow : option nat) (l : list stmt) (own up : frame) {struct l} : lres :=
+    fix sl (g : bool) (pk : pkind) (follow : option (nat * nat)) (l : list stmt) (own up : frame) {struct l} : lres :=
       match l with
       | [] => mkL own up [] None
       | x :: r =>
@@ -444,7 +465,7 @@ Fixpoint sem_stmt (g : bool) (pk : pkind) (nd : option nat) (s : stmt) (own up :
       let evs := [EvNode "function" ln; def_event name is_async ds ln own] in
       if descends own name is_async ds then
         let b := sem_list g PFunction None body (empty_frame InInit name (child_path own name)) own1 in
-        mkL (l_up b) up (evs ++ l_events b) (first_err e1 (l_err b))
+        mkL (close_fun (def_installed (fmembers own) name ds) name (l_own b) (l_up b)) up (evs ++ l_events b) (first_err e1 (l_err b))
       else mkL own1 up evs e1
   | SCls ln dln eln name ds body =>
       let b := sem_list g PScope None body (empty_frame InClass name (child_path own name)) sentinel in
@@ -473,7 +494,7 @@ Fixpoint sem_stmt (g : bool) (pk : pkind) (nd : option nat) (s : stmt) (own up :
   | SOther => mkL own up [] None
   end.
 
-Fixpoint sem_list (g : bool) (pk : pkind) (follow : option nat) (l : list stmt) (own up : frame) {struct l} : lres :=
+Fixpoint sem_list (g : bool) (pk : pkind) (follow : option (nat * nat)) (l : list stmt) (own up : frame) {struct l} : lres :=
   match l with
   | [] => mkL own up [] None
   | x :: r =>
@@ -715,13 +736,14 @@ Fixpoint dec_stmt (fuel : nat) (s : sexp) {struct fuel} : option stmt :=
 Definition enc_okind (k : okind) : sexp :=
   SStr (match k with KMod => "module" | KFun => "function" | KCls => "class" | KAttr => "attribute" | KAlias => "alias" end).
 Definition enc_strs (l : list string) : sexp := SList (map SStr l).
+Definition enc_span (p : nat * nat) : sexp := SList [of_nat (fst p); of_nat (snd p)].
 Definition enc_pairs (l : list (string * string)) : sexp := SList (map (fun p => SList [SStr (fst p); SStr (snd p)]) l).
 
 Fixpoint enc_obj (n : string) (o : obj) {struct o} : sexp :=
   match o with
   | Obj i ms im ex =>
       SList [SStr n; enc_okind (ikind i); of_nat (iline i); of_nat (iend i); of_bool (iruntime i);
-             enc_strs (ilabels i); of_opt of_nat (idoc i); SStr (itarget i);
+             enc_strs (ilabels i); of_opt enc_span (idoc i); SStr (itarget i);
              SList ((fix go (l : list (string * obj)) : list sexp :=
                        match l with [] => [] | (k, v) :: r => enc_obj k v :: go r end) ms);
              enc_pairs im; of_opt enc_strs ex]
@@ -739,7 +761,7 @@ Definition enc_event (e : event) : sexp :=
 Definition enc_result (r : result module_result) : sexp :=
   match r with
   | Err e => SList [SStr "err"; SStr e]
-  | Ok m => SList [SStr "ok"; of_opt of_nat (r_doc m); enc_members (r_members m); enc_pairs (r_imports m);
+  | Ok m => SList [SStr "ok"; of_opt enc_span (r_doc m); enc_members (r_members m); enc_pairs (r_imports m);
                    of_opt enc_strs (r_exports m); SList (map enc_event (r_events m))]
   end.
 
